@@ -70,6 +70,48 @@ Proof.
     + exact IH'.
 Qed.
 
+(* log' is log with some writes removed, all of which start at or above B *)
+Inductive drops (B : N) : list wr -> list wr -> Prop :=
+| drops_nil : drops B [] []
+| drops_keep w l l' : drops B l l' -> drops B (w :: l) (w :: l')
+| drops_drop w l l' : drops B l l' -> B <= w_off w -> drops B (w :: l) l'.
+
+Lemma drops_refl B l : drops B l l.
+Proof. induction l; constructor; auto. Qed.
+
+Lemma drops_in B l l' w : drops B l l' -> In w l' -> In w l.
+Proof.
+  induction 1 as [|w0 l l' _ IH|w0 l l' _ IH L]; intros Hin; auto.
+  - destruct Hin as [<-|Hin]; [left; auto|right; auto].
+  - right; auto.
+Qed.
+
+Lemma drops_app B a a' b : drops B a a' -> drops B (a ++ b) (a' ++ b).
+Proof. induction 1; cbn [app]; [apply drops_refl|constructor; auto|constructor; auto]. Qed.
+
+Lemma drops_filter B (f : wr -> bool) l :
+  (forall w, In w l -> f w = false -> B <= w_off w) -> drops B l (filter f l).
+Proof.
+  induction l as [|w l IH]; intros Hf; cbn [filter]; [constructor|].
+  destruct (f w) eqn:F.
+  - constructor. apply IH. intros w' Hin. apply Hf. right; auto.
+  - apply drops_drop; [apply IH; intros w' Hin; apply Hf; right; auto|]. apply Hf; [left; auto|auto].
+Qed.
+
+Lemma tl_read_drops B log log' off x :
+  drops B log log' -> tl_read log off = Some x -> w_end x <= B -> tl_read log' off = Some x.
+Proof.
+  induction 1 as [|w l l' _ IH|w l l' _ IH L]; cbn [tl_read]; auto.
+  - intros R E. destruct (N.eqb_spec (w_hdr_off w) off) as [Eo|No]; [exact R|].
+    destruct (tl_read l off) as [y|] eqn:Ry; [|discriminate].
+    destruct (w_disjoint w y) eqn:D; [|discriminate]. injection R as <-.
+    rewrite (IH eq_refl E), D. reflexivity.
+  - intros R E. destruct (N.eqb_spec (w_hdr_off w) off) as [Eo|No].
+    + injection R as <-. pose proof (w_off_lt_end w). lia.
+    + destruct (tl_read l off) as [y|] eqn:Ry; [|discriminate].
+      destruct (w_disjoint w y); [|discriminate]. injection R as <-. apply IH; auto.
+Qed.
+
 (* two records readable in the same log are the same write or do not overlap *)
 Lemma tl_read_disjoint log a b x y :
   tl_read log a = Some x -> tl_read log b = Some y -> x = y \/ w_disjoint x y = true.
